@@ -31,7 +31,7 @@ struct MemoryFixedSizeStream : public SeekStream {
     curr_ptr_ = 0;
   }
   virtual size_t Read(void *ptr, size_t size) override {
-    CHECK(curr_ptr_ + size <= buffer_size_);
+    CHECK(curr_ptr_ <= buffer_size_);
     size_t nread = std::min(buffer_size_ - curr_ptr_, size);
     if (nread != 0) {
       std::memcpy(ptr, p_buffer_ + curr_ptr_, nread);
@@ -43,7 +43,7 @@ struct MemoryFixedSizeStream : public SeekStream {
     if (size == 0) {
       return 0;
     }
-    CHECK(curr_ptr_ + size <= buffer_size_);
+    CHECK(curr_ptr_ <= buffer_size_ && size <= buffer_size_ - curr_ptr_);
     std::memcpy(p_buffer_ + curr_ptr_, ptr, size);
     curr_ptr_ += size;
     return size;
